@@ -110,10 +110,22 @@ DESCR = {
                'a task complete in flow 1, run again in flow 2, then reached again by flow 1'),
     'S-C21b': ('rundb.py: public-DB retry counter incremented per failed statement only, not for a failed commit',
                'a reader lock on the public DB (statements succeed, commit fails) held for MAX_TRIES writes'),
+    'S-C48b': ('pathutil.py get_next_rundir_number: run numbers compared as strings when runN is missing',
+               'ten or more numbered runs and the latest one cleaned (runN gone), then another install'),
+    'S-C42b': ('subprocpool.py put_command: a command refused by a closed pool is also queued',
+               'pool closed, then a non-submit command put while process() keeps being called: a second callback'),
+    'S-C44b': ('network/authentication.py key_housekeeping: old key files no longer removed before the new ones are created',
+               'key files left by an unclean exit and opened up (chmod go+r) before the restart'),
+    'S-C32b': ('task_pool.py queue_or_trigger: is_manual_submit set only when the task is not queued',
+               'a clock-expire task past its expiry time triggered by hand into a full queue'),
+    'S-C02b': ('task_events_mgr.py _process_message_check: failure messages bypass the gate that ignores messages while a retry is lined up',
+               'the failure of one job reported twice (poll result, then the job message) while the task waits for its retry'),
     'S-C31': ('cycling/integer.py get_nearest_prev_point reduced to get_prev_point',
               'sequential task on a finite recurrence followed after a gap by another recurrence'),
 }
 NOTES = {
+    'S-C48b': 'first missed: histories had at most a dozen operations and never ten installs; a share of the histories now starts with 9-12 plain installs',
+    'S-C44b': 'first missed: nothing ever loosened an existing private file; after a crash the files left behind are now opened up (chmod go+r) in half of the cases',
     'S-C45b': 'first missed, for two reasons: few runs had two different absolute outputs of one parent (the stop-mode generator now makes them), and the C45-F2 predicate (an earlier instance of the dependent already finished) also matched instances spawned after the output completed, so the seeded violations were filed under the known finding; the predicate now requires the instance to have been pooled before the output completed',
     'S-C46b': 'first missed: C46 had no sequential special tasks; adding them also exposed a genuine defect (fix 0cec6cb)',
     'S-C31b': 'first missed: sequential tasks were always listed by name; the generator now also lists them through a family inherited as first or second parent',
